@@ -1,1 +1,35 @@
-From BHW Require Import Model.PaperWallet.
+(* C15 -- Paranoia mode output contains no secret and leaves public data unchanged.
+   Theorems about paranoia_mode on ARBITRARY trees (so they also say what a future extra field would do). *)
+From BHW Require Import Lib.Base Lib.ListAux Model.Helper Model.PaperWallet Proofs.Wallet.
+From Coq Require String.
+Import String.StringSyntax.
+
+(* only whitelisted top-level keys survive, in their original order: MASTER, BIP85 and any new key are dropped *)
+Theorem C15_paranoia_keys : forall kv out,
+  paranoia_items kv = Ok out -> map fst out = filter whitelisted (map fst kv).
+Proof. exact paranoia_items_keys. Qed.
+
+(* a kept section consists of exactly: the original path, the original pub, and every row minus its last element *)
+Theorem C15_paranoia_section_shape : forall v s,
+  paranoia_section v = Ok s ->
+  exists aek path pub gs gs',
+    tget (k "account_extended_keys") v = Ok aek /\ tget (k "path") aek = Ok path /\ tget (k "pub") aek = Ok pub /\
+    s = TDict [(k "account_extended_keys", TDict [(k "path", path); (k "pub", pub)]); (k "groups", TList gs')] /\
+    ((tget (k "groups") v = Ok (TList gs) /\ Forall2 (fun g g' => strip_last g = Ok g') gs gs') \/
+     (exists kv, tget (k "groups") v = Ok (TDict kv) /\ gs' = [])).
+Proof. exact paranoia_section_shape. Qed.
+
+(* non-interference: the filtered section is a function of (path, pub, rows without their last column) alone;
+   "prv", extra fields and the last column cannot influence it *)
+Theorem C15_paranoia_noninterference : forall v1 v2,
+  section_view v1 = section_view v2 -> paranoia_section v1 = paranoia_section v2.
+Proof. exact paranoia_noninterference. Qed.
+
+(* on a wallet row [path; address; sec; wif] exactly the WIF column disappears (C06_row_shape gives the layout) *)
+Theorem C15_strip_last_row : forall a b c d, strip_last (TList [a; b; c; d]) = Ok (TList [a; b; c]).
+Proof. exact strip_last_row. Qed.
+
+Print Assumptions C15_paranoia_keys.
+Print Assumptions C15_paranoia_section_shape.
+Print Assumptions C15_paranoia_noninterference.
+Print Assumptions C15_strip_last_row.
